@@ -50,9 +50,13 @@ pub struct Inner {
     pub max_steps: usize,
 }
 
+pub type KeyFn = Box<dyn Fn(&str, u8) -> (u8, usize, u8) + Send + Sync>;
+
 pub struct Ctl {
     pub m: Mutex<Inner>,
     cv: Condvar,
+    /// canonical order of the enabled tasks: (class, index, kind) computed from (path, kind)
+    pub key: KeyFn,
     /// called when the run cannot continue (hang / stuck worker); must not return
     pub on_stuck: Box<dyn Fn(&Inner, &str) + Send + Sync>,
 }
@@ -66,8 +70,9 @@ pub fn kind_code(k: &TaskKind) -> u8 {
 }
 
 impl Ctl {
-    pub fn new(n_threads: usize, choices: Vec<usize>, max_steps: usize, on_stuck: Box<dyn Fn(&Inner, &str) + Send + Sync>) -> Arc<Self> {
+    pub fn new(n_threads: usize, choices: Vec<usize>, max_steps: usize, key: KeyFn, on_stuck: Box<dyn Fn(&Inner, &str) + Send + Sync>) -> Arc<Self> {
         Arc::new(Self {
+            key,
             m: Mutex::new(Inner {
                 n_threads: n_threads.max(1),
                 max_steps,
@@ -125,12 +130,11 @@ impl Controller for Ctl {
         }
         // attribute tasks spawned since the last delivery to that delivery
         if !g.steps.is_empty() {
-            let mut sp = std::mem::take(&mut g.spawned_since);
+            let sp = std::mem::take(&mut g.spawned_since);
             let last = g.steps.len() - 1;
             g.steps[last].spawned_order.extend(sp.iter().cloned());
-            sp.sort();
             g.steps[last].spawned.extend(sp);
-            g.steps[last].spawned.sort();
+            g.steps[last].spawned.sort_by(|a, b| (self.key)(&a.0, a.1).cmp(&(self.key)(&b.0, b.1)));
         } else {
             g.spawned_since.clear();
         }
@@ -165,7 +169,7 @@ impl Controller for Ctl {
             .filter(|(_, t)| t.ph == Ph::AtGate)
             .map(|(i, t)| (*i, (t.path.clone(), kind_code(&t.kind))))
             .collect();
-        en.sort_by(|a, b| a.1.cmp(&b.1));
+        en.sort_by(|a, b| (self.key)(&a.1 .0, a.1 .1).cmp(&(self.key)(&b.1 .0, b.1 .1)));
         let pos = g.pos;
         let c = if pos < g.choices.len() { g.choices[pos] % en.len() } else { 0 };
         g.pos += 1;
@@ -195,12 +199,11 @@ impl Controller for Ctl {
     fn finished(&self, ok: bool) {
         let mut g = self.m.lock().unwrap();
         if !g.steps.is_empty() {
-            let mut sp = std::mem::take(&mut g.spawned_since);
+            let sp = std::mem::take(&mut g.spawned_since);
             let last = g.steps.len() - 1;
             g.steps[last].spawned_order.extend(sp.iter().cloned());
-            sp.sort();
             g.steps[last].spawned.extend(sp);
-            g.steps[last].spawned.sort();
+            g.steps[last].spawned.sort_by(|a, b| (self.key)(&a.0, a.1).cmp(&(self.key)(&b.0, b.1)));
         }
         g.finished = Some(ok);
         g.outstanding_at_finish = g.tasks.values().filter(|t| t.ph != Ph::Sent).count();
